@@ -390,6 +390,33 @@ func matchRunTable(st *matchState, t matchTable) {
 	}
 	routers := []*built{mk("plain", 1), mk("cache1", 2, rux.CachingWithNum(1)), mk("cache1000", 2, rux.EnableCaching), mk("grouped", 1)}
 	cells, compared := 0, 0
+	// the views of the table (Routes(), also after lookups have been served): every registered route once per method it was
+	// registered for, nothing lost, nothing twice (RuxIndex.ListingOK)
+	listing := func(b *built, when string) {
+		got := map[string]int{}
+		for _, ri := range b.r.Routes() {
+			got[ri.Name+" "+ri.Path]++
+		}
+		for i, e := range t.T {
+			if i >= len(b.routes) || b.routes[i] == nil {
+				continue
+			}
+			k := b.routes[i].Name() + " " + b.routes[i].Path()
+			if got[k] != len(e.Ms) {
+				st.report(map[string]any{"kind": "match", "aspect": "listing", "table": texts, "router": b.name,
+					"what": fmt.Sprintf("Routes() of the router with the table %v (%s, %s) lists route %s %d time(s), it was registered for %d method(s) %v", texts, b.name, when, texts[i], got[k], len(e.Ms), e.Ms)}, caseDoc)
+				return
+			}
+			delete(got, k)
+		}
+		if len(got) != 0 {
+			st.report(map[string]any{"kind": "match", "aspect": "listing", "table": texts, "router": b.name,
+				"what": fmt.Sprintf("Routes() of the router with the table %v (%s, %s) lists routes nobody registered: %v", texts, b.name, when, got)}, caseDoc)
+		}
+	}
+	for _, b := range routers {
+		listing(b, "before any lookup")
+	}
 	// two sweeps over all cells: in the second one every dynamic cell of the big cache is a hit that is NOT preceded by
 	// its own miss (entries of one route must not share parameters), and the small cache has evicted everything
 	for sweep := 0; sweep < 2; sweep++ {
@@ -501,6 +528,9 @@ func matchRunTable(st *matchState, t matchTable) {
 				}
 			}
 		}
+	}
+	for _, b := range routers {
+		listing(b, "after all lookups")
 	}
 	// HEAD first: on a caching router whose cache is still cold, a HEAD request for a GET route (twice: fallback, then
 	// whatever the first one left behind) gets the route's parameters both times
